@@ -84,6 +84,8 @@ pub(super) fn run_warm_up<H: HashAlgorithm>(
 }
 
 pub(super) fn run_update<H: HashAlgorithm>(params: UpdateParams) -> std::io::Result<WorkerOutput> {
+    #[cfg(feature = "verif-hooks")]
+    crate::verif::yield_point(25);
     let UpdateParams {
         page_cache,
         page_pool,
